@@ -466,6 +466,10 @@ CONN_BODIES = [
     "types.py::str_fixed", "types.py::str_null", "types.py::str_len", "types.py::str_rest", "types.py::uint_1", "types.py::uint_2", "types.py::uint_4",
     "errors.py::get_sqlstate",
     "server.py:MysqlServer:_client_connected_cb",
+    "connection.py:Connection:__init__", "connection.py:Connection:ok", "connection.py:Connection:eof",
+    "packets.py::make_com_stmt_prepare_ok", "packets.py::parse_handle_stmt_fetch", "packets.py::parse_com_stmt_reset",
+    "packets.py::parse_com_stmt_close", "packets.py::_read_cursor_flags", "packets.py::_read_param_type", "packets.py::make_auth_more_data",
+    "results.py:ResultSet:__bool__",
 ]
 
 
